@@ -23,6 +23,10 @@ CHECKS['C20'] = ('3/C20', 'Orificing._group runs symbolically as a whole under a
                  'iteration plus loop-exit/epilogue from arbitrary states; distribute() as lifted prologue, one iteration from an '
                  'arbitrary state, epilogue, and a bounded whole run; partition, order, count, conservation and limit claims are SMT queries.')
 
+CHECKS['C17'] = ('3/C17', 'Every float leaf of the real reader\'s data dictionary (complete generated input) is a solver variable; the real '
+                 'conversion functions run for all 90 unit combinations and every accepted unit spelling; per-leaf conversion '
+                 'exactly once / unchanged, round trips and exception-freedom are SMT queries against an independent key classification.')
+
 NOT_APPLICABLE = {
     'C16': ('No symbolic dimension for a solver: process schedules/multiprocessing/file output, bitwise IEEE determinism, and '
             'object-identity/type mutation of the input dictionary on `is None`/key-presence branches (DESIGN section 4).'),
